@@ -260,7 +260,11 @@ where
     }
     // ---- the rest, through one of Iterator's provided methods
     let fin = op["fin"].as_str().unwrap_or("none");
-    let j = op["j"].as_u64().unwrap_or(0) as usize;
+    // (2_000_000_000 in the model stands for usize::MAX)
+    let j = match op["j"].as_u64().unwrap_or(0) as usize {
+        x if x >= 2_000_000_000 => usize::MAX,
+        x => x,
+    };
     let mut some = "nofin";
     let mut r: Vec<Value> = vec![];
     let mut left: Option<I> = None;
